@@ -20,17 +20,15 @@ structure Killed (s : St) (K : List Nat) (s' : St) : Prop where
   ptrK : ∀ v o, o ∈ K → v ∈ s.ring o → s'.ptr v = none
   ptrU : ∀ v, (∀ o ∈ K, v ∉ s.ring o) → s'.ptr v = s.ptr v
   par : ∀ o, o ∉ K → s'.par o = s.par o
-  kidsS : ∀ b x, x ∈ s'.kids b → x ∈ s.kids b ∧ x ∉ K
-  kidsU : ∀ b x, x ∈ s.kids b → x ∉ K → b ∉ K → x ∈ s'.kids b
-  kidsK : ∀ b, b ∈ K → s.kind b ≠ .dev → s'.kids b = []
+  kidsS : ∀ b x, x ∈ s'.kids b → x ∈ s.kids b
+  kidsU : ∀ b x, x ∈ s.kids b → s.alive x = true → x ∉ K → b ∉ K → x ∈ s'.kids b
   kidsN : ∀ b, (s.kids b).Nodup → (s'.kids b).Nodup
-  chS : ∀ k d x, x ∈ s'.chGet k d → x ∈ s.chGet k d ∧ x ∉ K
-  chU : ∀ k d x, x ∈ s.chGet k d → x ∉ K → d ∉ K → x ∈ s'.chGet k d
-  chK : ∀ k d, d ∈ K → s.kind d = .dev → s'.chGet k d = []
+  chS : ∀ k d x, x ∈ s'.chGet k d → x ∈ s.chGet k d
+  chU : ∀ k d x, x ∈ s.chGet k d → s.alive x = true → x ∉ K → d ∉ K → x ∈ s'.chGet k d
   chN : ∀ k d, (s.chGet k d).Nodup → (s'.chGet k d).Nodup
 
 theorem Killed.refl (s : St) : Killed s [] s := by
-  constructor <;> simp
+  constructor <;> simp <;> intros <;> assumption
 
 theorem Killed.trans {s s1 s2 : St} {K1 K2 : List Nat}
     (h1 : Killed s K1 s1) (h2 : Killed s1 K2 s2) : Killed s (K1 ++ K2) s2 := by
@@ -86,37 +84,17 @@ theorem Killed.trans {s s1 s2 : St} {K1 K2 : List Nat}
     have b : o ∉ K2 := fun c => ho (List.mem_append.mpr (Or.inr c))
     rw [h2.par o b, h1.par o a]
   · intro b x hx
-    obtain ⟨h3, h4⟩ := h2.kidsS b x hx
-    obtain ⟨h5, h6⟩ := h1.kidsS b x h3
-    exact ⟨h5, by simp [h4, h6]⟩
-  · intro b x hx hxk hbk
+    exact h1.kidsS b x (h2.kidsS b x hx)
+  · intro b x hx ha hxk hbk
     simp only [List.mem_append, not_or] at hxk hbk
-    exact h2.kidsU b x (h1.kidsU b x hx hxk.1 hbk.1) hxk.2 hbk.2
-  · intro b hb hk
-    rcases List.mem_append.mp hb with hb | hb
-    · have e : s1.kids b = [] := h1.kidsK b hb hk
-      apply List.eq_nil_iff_forall_not_mem.mpr
-      intro x hx
-      have := (h2.kidsS b x hx).1
-      simp [e] at this
-    · exact h2.kidsK b hb (by rw [h1.kind]; exact hk)
+    exact h2.kidsU b x (h1.kidsU b x hx ha hxk.1 hbk.1) (by rw [h1.alive]; simp [ha, hxk.1]) hxk.2 hbk.2
   · intro b hb
     exact h2.kidsN b (h1.kidsN b hb)
   · intro k d x hx
-    obtain ⟨h3, h4⟩ := h2.chS k d x hx
-    obtain ⟨h5, h6⟩ := h1.chS k d x h3
-    exact ⟨h5, by simp [h4, h6]⟩
-  · intro k d x hx hxk hdk
+    exact h1.chS k d x (h2.chS k d x hx)
+  · intro k d x hx ha hxk hdk
     simp only [List.mem_append, not_or] at hxk hdk
-    exact h2.chU k d x (h1.chU k d x hx hxk.1 hdk.1) hxk.2 hdk.2
-  · intro k d hd hk
-    rcases List.mem_append.mp hd with hd | hd
-    · have e : s1.chGet k d = [] := h1.chK k d hd hk
-      apply List.eq_nil_iff_forall_not_mem.mpr
-      intro x hx
-      have := (h2.chS k d x hx).1
-      simp [e] at this
-    · exact h2.chK k d hd (by rw [h1.kind]; exact hk)
+    exact h2.chU k d x (h1.chU k d x hx ha hxk.1 hdk.1) (by rw [h1.alive]; simp [ha, hxk.1]) hxk.2 hdk.2
   · intro k d hd
     exact h2.chN k d (h1.chN k d hd)
 
@@ -135,13 +113,58 @@ theorem Killed.perm {s s' : St} {K K' : List Nat} (hp : K.Perm K') (h : Killed s
   · intro v o ho; exact h.ptrK v o ((hm o).mpr ho)
   · intro v hv; exact h.ptrU v (fun o ho => hv o ((hm o).mp ho))
   · intro o ho; exact h.par o (fun c => ho ((hm o).mp c))
-  · intro b x hx; obtain ⟨a, c⟩ := h.kidsS b x hx; exact ⟨a, fun d => c ((hm x).mpr d)⟩
-  · intro b x hx a c; exact h.kidsU b x hx (fun d => a ((hm x).mp d)) (fun d => c ((hm b).mp d))
-  · intro b hb; exact h.kidsK b ((hm b).mpr hb)
+  · exact h.kidsS
+  · intro b x hx ha a c; exact h.kidsU b x hx ha (fun d => a ((hm x).mp d)) (fun d => c ((hm b).mp d))
   · exact h.kidsN
-  · intro k d x hx; obtain ⟨a, c⟩ := h.chS k d x hx; exact ⟨a, fun e => c ((hm x).mpr e)⟩
-  · intro k d x hx a c; exact h.chU k d x hx (fun e => a ((hm x).mp e)) (fun e => c ((hm d).mp e))
-  · intro k d hd; exact h.chK k d ((hm d).mpr hd)
+  · exact h.chS
+  · intro k d x hx ha a c; exact h.chU k d x hx ha (fun e => a ((hm x).mp e)) (fun e => c ((hm d).mp e))
   · exact h.chN
+
+/-- the member rings of the destroyed objects are empty afterwards -/
+def Emptied (s' : St) (K : List Nat) : Prop :=
+  ∀ b ∈ K, s'.kids b = [] ∧ ∀ k, s'.chGet k b = []
+
+theorem Emptied.mono {s s' : St} {K K2 : List Nat} (h : Killed s K2 s') (he : Emptied s K) : Emptied s' K := by
+  intro b hb
+  obtain ⟨h1, h2⟩ := he b hb
+  constructor
+  · apply List.eq_nil_iff_forall_not_mem.mpr
+    intro x hx
+    have := h.kidsS b x hx
+    simp [h1] at this
+  · intro k
+    apply List.eq_nil_iff_forall_not_mem.mpr
+    intro x hx
+    have := h.chS k b x hx
+    simp [h2 k] at this
+
+theorem Emptied.append {s' : St} {K1 K2 : List Nat} (h1 : Emptied s' K1) (h2 : Emptied s' K2) :
+    Emptied s' (K1 ++ K2) := by
+  intro b hb
+  rcases List.mem_append.mp hb with hb | hb
+  · exact h1 b hb
+  · exact h2 b hb
+
+/-- the destroyed objects are no longer members of any ring of children -/
+def Purged (s' : St) (K : List Nat) : Prop :=
+  (∀ b x, x ∈ s'.kids b → x ∉ K) ∧ (∀ k d x, x ∈ s'.chGet k d → x ∉ K)
+
+theorem Purged.mono {s s' : St} {K K2 : List Nat} (h : Killed s K2 s') (hp : Purged s K) : Purged s' K :=
+  ⟨fun b x hx => hp.1 b x (h.kidsS b x hx), fun k d x hx => hp.2 k d x (h.chS k d x hx)⟩
+
+theorem Purged.append {s' : St} {K1 K2 : List Nat} (h1 : Purged s' K1) (h2 : Purged s' K2) :
+    Purged s' (K1 ++ K2) := by
+  constructor
+  · intro b x hx hk
+    rcases List.mem_append.mp hk with hk | hk
+    · exact h1.1 b x hx hk
+    · exact h2.1 b x hx hk
+  · intro k d x hx hk
+    rcases List.mem_append.mp hk with hk | hk
+    · exact h1.2 k d x hx hk
+    · exact h2.2 k d x hx hk
+
+theorem Purged.nil (s : St) : Purged s [] := ⟨by simp, by simp⟩
+theorem Emptied.nil (s : St) : Emptied s [] := by intro b hb; simp at hb
 
 end Occa.Gc
